@@ -23,8 +23,12 @@ TAB_HDR = '''From Coq Require Import List String.
 {imports}
 Import ListNotations.
 '''
-MINMAX = ('cbv [gen_kde_get_bounds np_min np_max Rlist_min Rlist_max np_std np_var np_mean np_sqrt Rsum map List.length INR fst snd kde_tab]; '
-          'minmax_lra; interval with (i_prec 90)')
+def bounds_tactic(D):
+    """certify np.min / np.max of the literal list by naming the extremum, then evaluate mean/std with Interval"""
+    mn, mx = frac(float(np.min(D))), frac(float(np.max(D)))
+    return ('cbv beta zeta iota delta [gen_kde_get_bounds fst snd]; '
+            f'rewrite ?(np_min_is _ {mn}) by minmax_side; rewrite ?(np_max_is _ {mx}) by minmax_side; '
+            'cbv [np_std np_var np_mean np_sqrt Rsum map List.length INR]; interval with (i_prec 90)')
 
 
 def q(x):
@@ -288,9 +292,14 @@ def run(ctx):
         if spec['cls'] != 'Univariate':     # a scipy fitter refusing a sample is not a fitted model: the property is vacuous there
             ctx.log(f'note: fit raised for {label}: {err[:120]}')
 
+    import time
+    t1 = time.time()
+    ctx.log(f'fitted {len(models)} models in {t1 - ctx.t0:.1f}s (incl. proofs)')
     # ------------------------------------------------------------------ correspondence
     if gen_compiled:
         correspondence(ctx, models, compiled)
+    t2 = time.time()
+    ctx.log(f'correspondence {t2 - t1:.1f}s')
     # ------------------------------------------------------------------ witness search (always)
     for label, spec, m, log in models:
         if m is None:
@@ -303,6 +312,7 @@ def run(ctx):
                           {'model': label, 'spec': spec, 'traceback': traceback.format_exc()[-1500:],
                            'repro': f'from vf import univ\nm = univ.build({spec!r})\n'}, found=True)
         ctx.case(('search', label), None, nontrivial=True)
+    ctx.log(f'witness search {time.time() - t2:.1f}s')
     ctx.extra['witness_search_hits'] = sorted(set(hits))
     # a failed bridge/translation that the search could not turn into a concrete input is reported by finish()
 
@@ -351,11 +361,14 @@ def correspondence(ctx, models, props_compiled):
         if fam == 'uniform' and not is_wrapper:
             loc, sc = float(k._params['loc']), float(k._params['scale'])
             vm(f'showqq (quniform_fit {qlist(X)})', ('uniform-fit', label, spec, m))
-            xs = [float(v) for v in np.concatenate([np.linspace(loc - 0.5 * sc, loc + 1.5 * sc, 9), [loc, loc + sc, float(np.nextafter(loc, -np.inf))]])]
+            # evaluation points avoid the two end points up to 2^-20 of the width: there the float and the exact comparison may differ by one rounding
+            xs = [loc + t * sc for t in (-0.5, -0.2, -2.0 ** -20, 2.0 ** -20, 0.1, 0.3, 0.5, 0.7, 0.9, 1 - 2.0 ** -20, 1 + 2.0 ** -20, 1.2, 1.5)] + [loc]
             us = [0.0, 0.125, 0.5, 0.8125, 1.0, -0.25, 1.5]
             vm(f'(map showq (map (qunif_cdf {q(loc)} {q(sc)}) {qlist(xs)}), map showq (map (qunif_pdf {q(loc)} {q(sc)}) {qlist(xs)}), '
                f'map showoq (map (qunif_ppf {q(loc)} {q(sc)}) {qlist(us)}))', ('uniform-query', label, spec, m, xs, us))
             ctx.case(('uniform', label), {**sample, 'loc': loc, 'scale': sc}, nontrivial=True)
+        # ---- aliases pdf/cdf/ppf and (wrapper) delegation to the selected instance, per the generated table
+        check_wrapper(ctx, label, spec, m, wrap)
         # ---- scipy delegation trace
         if fam in SCIPY_FAMS:
             check_delegation(ctx, label, spec, m, deleg, mclass, wrap)
@@ -367,16 +380,36 @@ def correspondence(ctx, models, props_compiled):
     # ---------- run vm cases
     outs = cases.run_vm_cases(ctx, 'Cases_C03_vm', VM_IMPORTS, exprs, per_file=40, hdr=VM_HDR, scope_open='Open Scope Q_scope.')
     for meta, o in zip(vmeta, outs):
-        judge_vm(ctx, meta, o)
+        try:
+            judge_vm(ctx, meta, o)
+        except Exception as ex:
+            ctx.obligation(f'corr:{meta[0]}:{meta[1]}', False, 'correspondence', f'comparison raised {type(ex).__name__}: {ex}; model output {str(o)[:200]}')
     # ---------- interval cases
     if goals:
         hdr = 'From CopRun Require Import Gen_univ.\nFrom Cop Require Import Model.Univariate.\nFrom Coq Require Import String.'
-        for g, err in cases.run_interval_cases(ctx, 'Cases_C03_iv', hdr, goals, per_file=6):
+        for g, err in cases.run_interval_cases(ctx, 'Cases_C03_iv', hdr, goals, per_file=max(4, len(goals) // 30 + 1)):
             mt = g['meta']
             ctx.violation(f"corr:kde-{mt['what']}:{mt['model'].split(':')[1] if ':' in mt['model'] else mt['model']}",
                           f"{mt['model']}: generated model and implementation disagree on {mt['what']} ({mt.get('detail', '')}): implementation {g['y']!r}",
                           {'meta': {kk: vv for kk, vv in mt.items() if kk != 'spec'}, 'spec': mt['spec'], 'coq_error': err[-300:],
                            'repro': mt['repro']}, found=True)
+
+
+def safe(f):
+    """implementation call -> float array, or a string describing the exception"""
+    try:
+        with np.errstate(all='ignore'):
+            return np.asarray(f(), dtype=float)
+    except Exception as ex:
+        return f'raises {type(ex).__name__}: {str(ex)[:120]}'
+
+
+def show(v):
+    return v if isinstance(v, str) else v.tolist()
+
+
+def exact(impl, model):
+    return not isinstance(impl, str) and impl.ndim == 1 and [Fraction(float(v)) if np.isfinite(v) else None for v in impl] == list(model)
 
 
 def viol_corr(ctx, key, what, spec, extra, body):
@@ -407,23 +440,20 @@ def judge_vm(ctx, meta, o):
         parts = re.split(r'\],\s*\[', o)
         mc, mp, mq, ms = (fracs(p) for p in parts)
         c = float(spec['X'][0])
-        ic = np.asarray(m.cumulative_distribution(np.array(xs)), dtype=float)
-        ip = np.asarray(m.probability_density(np.array(xs)), dtype=float)
-        iq = np.asarray(m.percent_point(np.array([0.0, 0.3, 1.0])), dtype=float)
-        isam = np.asarray(m.sample(4), dtype=float)
-        okc = [Fraction(float(v)) for v in ic] == mc
-        okp = [Fraction(float(v)) for v in ip] == mp
-        okq = [Fraction(float(v)) for v in iq] == mq
-        oks = [Fraction(float(v)) for v in isam] == ms
+        ic = safe(lambda: m.cumulative_distribution(np.array(xs)))
+        ip = safe(lambda: m.probability_density(np.array(xs)))
+        iq = safe(lambda: m.percent_point(np.array([0.0, 0.3, 1.0])))
+        isam = safe(lambda: m.sample(4))
+        okc, okp, okq, oks = (exact(v, w) for v, w in ((ic, mc), (ip, mp), (iq, mq), (isam, ms)))
         ctx.obligation(f'corr:const-query:{label}', okc and okp and okq and oks, 'correspondence',
-                       f'cdf {ic.tolist()} pdf {ip.tolist()} ppf {iq.tolist()} sample {isam.tolist()} vs model {o[:200]}')
+                       f'cdf {show(ic)} pdf {show(ip)} ppf {show(iq)} sample {show(isam)} vs model {o[:200]}')
         for ok, name, impl, mod in ((okc, 'cumulative_distribution', ic, mc), (okq, 'percent_point', iq, mq), (oks, 'sample', isam, ms),
                                     (okp, 'probability_density', ip, mp)):
             if not ok:
                 arg = {'cumulative_distribution': xs, 'probability_density': xs, 'percent_point': [0.0, 0.3, 1.0]}.get(name)
                 call = f'm.{name}(np.array({arg!r}))' if arg is not None else 'm.sample(4)'
-                viol_corr(ctx, f'corr:constant-{name}:{fam}', f'{label}: constant data {c!r}: {name} = {impl.tolist()}, point-mass model {[float(v) for v in mod]}',
-                          spec, {'impl': impl.tolist()}, f'r = np.asarray({call}, dtype=float)\nprint(r)\nassert r.tolist() == {[float(v) for v in mod]!r}\n')
+                viol_corr(ctx, f'corr:constant-{name}:{fam}', f'{label}: constant data {c!r}: {name} = {show(impl)}, point-mass model {[float(v) for v in mod]}',
+                          spec, {'impl': show(impl)}, f'r = np.asarray({call}, dtype=float)\nprint(r)\nassert r.tolist() == {[float(v) for v in mod]!r}\n')
     elif kind == 'uniform-fit':
         ml, ms = fracs(o)
         ok = close(k._params['loc'], ml) and close(k._params['scale'], ms)
@@ -436,19 +466,19 @@ def judge_vm(ctx, meta, o):
         a, b, c = re.split(r'\],\s*\[', o)
         mc, mp = fracs(a), fracs(b)
         mq = [None if 'None' in t else fracs(t)[0] for t in c.split(';')]
-        ic = np.asarray(m.cumulative_distribution(np.array(xs)), dtype=float)
-        ip = np.asarray(m.probability_density(np.array(xs)), dtype=float)
-        with np.errstate(all='ignore'):
-            iq = np.asarray(m.percent_point(np.array(us)), dtype=float)
-        okc = all(close(v, w) for v, w in zip(ic, mc))
-        okp = all(close(v, w, 1e-12) for v, w in zip(ip, mp))
-        okq = len(mq) == len(us) and all((np.isnan(v) and w is None) or (w is not None and close(v, w)) for v, w in zip(iq, mq))
+        ic = safe(lambda: m.cumulative_distribution(np.array(xs)))
+        ip = safe(lambda: m.probability_density(np.array(xs)))
+        iq = safe(lambda: m.percent_point(np.array(us)))
+        okc = not isinstance(ic, str) and len(ic) == len(mc) and all(close(v, w) for v, w in zip(ic, mc))
+        okp = not isinstance(ip, str) and len(ip) == len(mp) and all(close(v, w, 1e-12) for v, w in zip(ip, mp))
+        okq = not isinstance(iq, str) and len(mq) == len(us) == len(iq) and \
+            all((np.isnan(v) and w is None) or (w is not None and close(v, w)) for v, w in zip(iq, mq))
         ctx.obligation(f'corr:uniform-query:{label}', okc and okp and okq, 'correspondence',
-                       f'cdf {ic.tolist()} pdf {ip.tolist()} ppf {iq.tolist()} vs model {o[:300]}')
+                       f'cdf {show(ic)} pdf {show(ip)} ppf {show(iq)} vs model {o[:300]}')
         for ok, name, arg, impl, mod in ((okc, 'cumulative_distribution', xs, ic, mc), (okp, 'probability_density', xs, ip, mp), (okq, 'percent_point', us, iq, mq)):
             if not ok:
                 modf = [None if v is None else float(v) for v in mod]
-                viol_corr(ctx, f'corr:uniform-{name}', f'{label}: {name}({arg}) = {impl.tolist()} but the closed form gives {modf}', spec, {'impl': impl.tolist(), 'model': modf},
+                viol_corr(ctx, f'corr:uniform-{name}', f'{label}: {name}({arg}) = {show(impl)} but the closed form gives {modf}', spec, {'impl': show(impl), 'model': modf},
                           f'r = np.asarray(m.{name}(np.array({arg!r})), dtype=float)\nprint(r)\nexp = {modf!r}\n'
                           'assert all((e is None and np.isnan(v)) or (e is not None and abs(v - e) <= 1e-12 * (1 + abs(e))) for v, e in zip(r, exp))\n')
     elif kind == 'kde-route':
@@ -511,6 +541,42 @@ def check_delegation(ctx, label, spec, m, deleg, mclass, wrap):
                   'and np.array_equal(k.percent_point(x), d.ppf(x, **k._params)) and np.array_equal(k.log_probability_density(x), d.logpdf(x, **k._params), equal_nan=True)\n')
 
 
+def check_wrapper(ctx, label, spec, m, wrap):
+    """pdf/cdf/ppf are the long-named methods; every Univariate-wrapper query returns what the same method of the selected instance returns"""
+    X = np.asarray(spec['X'], dtype=float)
+    xs = np.linspace(X.min(), X.max(), 5)
+    us = np.array([0.1, 0.5, 0.9])
+    arg = {'probability_density': xs, 'cumulative_distribution': xs, 'percent_point': us, 'log_probability_density': xs}
+    bad = []
+
+    def same(a, b):
+        if isinstance(a, str) or isinstance(b, str):
+            return isinstance(a, str) and isinstance(b, str) and a.split(':')[0] == b.split(':')[0]
+        return a.shape == b.shape and np.array_equal(a, b, equal_nan=True)
+    for alias in ('pdf', 'cdf', 'ppf'):
+        target = wrap.get(alias)
+        if target not in arg:
+            bad.append(f'generated table maps {alias} to {target}')
+            continue
+        if not same(safe(lambda: getattr(m, alias)(arg[target])), safe(lambda: getattr(m, target)(arg[target]))):
+            bad.append(f'{alias}(x) differs from {target}(x)')
+    if spec['cls'] == 'Univariate':
+        for meth in arg:
+            target = wrap.get(meth)
+            if target not in arg:
+                bad.append(f'generated table maps {meth} to {target}')
+                continue
+            if not same(safe(lambda: getattr(m, meth)(arg[meth])), safe(lambda: getattr(m._instance, target)(arg[meth]))):
+                bad.append(f'wrapper.{meth}(x) differs from instance.{target}(x)')
+    ctx.obligation(f'corr:wrapper-delegation:{label}', not bad, 'correspondence', '; '.join(bad))
+    if bad:
+        viol_corr(ctx, f'corr:wrapper-delegation:{univ.fam_of(m)}', f'{label}: ' + '; '.join(bad), spec, {'problems': bad},
+                  'x = np.linspace(min(spec_X), max(spec_X), 5)\nu = np.array([0.1, 0.5, 0.9])\nk = univ.inner(m)\n'
+                  'assert np.array_equal(m.cdf(x), k.cumulative_distribution(x)) and np.array_equal(m.pdf(x), k.probability_density(x)) and np.array_equal(m.ppf(u), k.percent_point(u))\n'
+                  'assert np.array_equal(m.cumulative_distribution(x), k.cumulative_distribution(x)) and np.array_equal(m.probability_density(x), k.probability_density(x)) '
+                  'and np.array_equal(m.percent_point(u), k.percent_point(u))\n'.replace('spec_X', repr(spec['X'])))
+
+
 def check_kde(ctx, label, spec, m, vm, goals, wrap, solvers):
     k = univ.inner(m)
     D = np.ravel(np.asarray(k._model.dataset, dtype=float))
@@ -546,7 +612,7 @@ def check_kde(ctx, label, spec, m, vm, goals, wrap, solvers):
     rb = ('import numpy as np, warnings\nwarnings.filterwarnings("ignore")\nfrom vf import univ\n' f'm = univ.build({spec!r})\nk = univ.inner(m)\n')
     # ---- bounds (Interval, with sqrt)
     for proj, val, nm in (('fst', lo, 'lower'), ('snd', hi, 'upper')):
-        goals.append({'term': f'{proj} (gen_kde_get_bounds {rlist(D)})', 'y': val, 'tol': 1e-9 * (1 + abs(val)), 'unfolds': ['gen_kde_get_bounds'], 'tactic': MINMAX,
+        goals.append({'term': f'{proj} (gen_kde_get_bounds {rlist(D)})', 'y': val, 'tol': 1e-9 * (1 + abs(val)), 'unfolds': ['gen_kde_get_bounds'], 'tactic': bounds_tactic(D),
                       'meta': {**base, 'what': f'get-bounds-{nm}', 'detail': 'min/max -/+ 5 np.std',
                                'repro': rb + f"D = np.ravel(k._params['dataset'])\nexp = (D.min() - 5 * D.std(), D.max() + 5 * D.std())\nprint(k._get_bounds(), exp)\n"
                                              'assert np.allclose(k._get_bounds(), exp, rtol=1e-9, atol=0)\n'}})
@@ -567,10 +633,10 @@ def check_kde(ctx, label, spec, m, vm, goals, wrap, solvers):
                 "D = np.ravel(k._model.dataset); L = D.min() - 5 * D.std()\nexp = (ndtr((x[:, None] - D) / h) - ndtr((L - D) / h)).dot(k._model.weights)\nprint(F, exp)\n" \
                 'assert np.allclose(F, exp, rtol=0, atol=1e-12)\n'
     js = sorted({0, len(D) // 2, len(D) - 1})
-    for j in js:
+    for j in js:        # lower: the certified float bound `lo` stands for the model's bound (goal above)
         a = float(low_args[j])
-        goals.append({'term': f'(fst (gen_kde_get_bounds {rlist(D)}) - {frac(D[j])}) / np_sqrt {frac(cov)}', 'y': a, 'tol': 1e-9 * (1 + abs(a)),
-                      'unfolds': ['gen_kde_get_bounds'], 'tactic': MINMAX,
+        goals.append({'term': f'({frac(lo)} - {frac(D[j])}) / np_sqrt {frac(cov)}', 'y': a, 'tol': 1e-9 * (1 + abs(a)), 'unfolds': ['np_sqrt'],
+                      'tactic': 'interval with (i_prec 90)',
                       'meta': {**base, 'what': 'cdf-ndtr-argument-lower', 'detail': f'datum {j}', 'repro': rcdf}})
     for i in range(len(xs)):
         for j in js[:2]:
